@@ -285,15 +285,31 @@ def generic_replay(pid, path):
         print(json.dumps(rp, indent=1)[:3000])
         return 0
     exe = build.build_harness(rp["harness"], rp.get("variant", "asan"))
-    lean.lake(["build", "drv_" + rp.get("model_family", rp["family"])])
-    impl, reports = run.run_impl(exe, rp["lines"], stateful=rp.get("stateful", False), args=rp.get("harness_args"))
-    model = run.run_model(rp.get("model_family", rp["family"]), rp["lines"])
+    mfam = rp["model_family"] if "model_family" in rp else rp.get("family")
+    impl, reports = run.run_impl(exe, rp["lines"], stateful=rp.get("stateful", False), args=rp.get("harness_args"), env=rp.get("env"))
+    model = None
+    if mfam and os.path.exists(os.path.join(lean.LEAN_DIR, "Drivers")):
+        try:
+            lean.lake(["build", "drv_" + mfam])
+            model = run.run_model(mfam, rp["lines"])
+        except Exception as e:
+            print("(no model side for this replay: %s)" % str(e)[:200])
     bad = 0
-    for l, i, m in zip(rp["lines"], impl, model):
-        mark = " " if run.same(i, m) else "!"
-        if mark == "!":
-            bad += 1
-        print("%s %s\n    impl : %s\n    model: %s" % (mark, l, i, m))
+    for i, l in enumerate(rp["lines"]):
+        im = impl[i] if i < len(impl) else "?"
+        if model is not None:
+            mark = " " if run.same(im, model[i]) else "!"
+            if mark == "!":
+                bad += 1
+            print("%s %s\n    impl : %s\n    model: %s" % (mark, l, im, model[i]))
+        else:
+            flag = "!" if (im.startswith("crash") or " FAIL" in im or "CHANGED" in im) else " "
+            if flag == "!":
+                bad += 1
+            print("%s %s\n    impl : %s" % (flag, l, im[:600]))
+    for k in ("expected_spec", "expected_last_line", "observed", "observed_impl", "how"):
+        if k in rp:
+            print("%s: %s" % (k, str(rp[k])[:400]))
     for r in reports:
         print("crash report:", r["kind"], (r.get("stderr") or "")[-600:])
     return 1 if bad or reports else 0
